@@ -33,7 +33,7 @@ def cell_value(rng, with_dates, with_errs):
         return rng.choice(OTHER)
     if with_dates and r < 0.95:
         return rng.choice(DATES)
-    if with_errs and r < 0.97:
+    if with_errs and r < 0.99:
         return rng.choice(ERRS)
     return rng.choice(NUMS)
 
@@ -219,6 +219,8 @@ def run(tier, seed):
                 continue
             laws += ['=SUM(%s,%s)' % (tx, ty), '=SUM(%s)+SUM(%s)' % (tx, ty), '=COUNT(%s,%s)' % (tx, ty), '=COUNT(%s)+COUNT(%s)' % (tx, ty)]
         twin_sheets_law(chk, rng, b)
+        if special:
+            text_is_ignored_law(chk, rng, book, b)
         lo = realcode.eval_formulas(laws, values, extra_sheets=[(book.title1, book.data[1])], min_rows=per)
         for i in range(0, len(laws), 2):
             chk.count('law:split')
@@ -257,6 +259,31 @@ def helpers(chk, tier):
 
 def conv(inst, v):
     return inst.EmptyCell() if v is None else v
+
+
+def text_is_ignored_law(chk, rng, book, b):
+    """SUM / AVERAGE / MAX / COUNT ignore text cells of an area whatever the text says (text_bool_blank_ignored): a text that looks like an error value changes nothing"""
+    data0 = [[('zzz' if v in ERRS else v) for v in row] for row in book.data[0]]
+    if data0 == book.data[0]:
+        return
+    forms = []
+    for _ in range(6):
+        t, rows = book.area(rng.choice(['col', 'rect', 'row']))
+        if '!' in t:
+            continue
+        for fn in ('SUM', 'AVERAGE', 'MAX', 'COUNT'):
+            forms.append('=%s(%s)' % (fn, t))
+    if not forms:
+        return
+    vals = lambda d: {(c, r): d[r][c] for r in range(len(d)) for c in range(len(d[r])) if d[r][c] is not None}
+    a = realcode.eval_formulas(forms, vals(book.data[0]), min_rows=10)
+    z = realcode.eval_formulas(forms, vals(data0), min_rows=10)
+    for f, x, y in zip(forms, a, z):
+        chk.count('law:text-is-ignored')
+        chk.seen(('textignored', b, f))
+        if x != y:
+            chk.violation({'why': 'an aggregate over an area changes when a TEXT cell of the area (one that looks like an error value) is replaced by another text',
+                           'formula': f, 'with_error_like_text': x, 'with_other_text': y, 'stream': 'text-is-ignored'})
 
 
 def twin_sheets_law(chk, rng, b):
